@@ -49,6 +49,10 @@ pub struct AliasPlan {
     /// started from zero
     #[serde(default)]
     pub detach: bool,
+    /// with `detach`: the request after the removal goes through a CLONE of the local vector taken
+    /// before the removal (a clone starts without cached children)
+    #[serde(default)]
+    pub detach_clone: bool,
 }
 
 fn splits(s: &str, n: usize, r: &mut Rng) -> Vec<String> {
@@ -134,7 +138,8 @@ fn gen_plan(seed: u64) -> AliasPlan {
     let faults = churn && r.chance(50);
     let env = Env::swarm(&mut r, nthreads, nreq as u64 * 12 + 10, faults);
     let detach = is_local && r.chance(35);
-    AliasPlan { env, kind, labels, consts, requests, nthreads, churn, detach }
+    let detach_clone = detach && r.chance(50);
+    AliasPlan { env, kind, labels, consts, requests, nthreads, churn, detach, detach_clone }
 }
 
 /// The tuple a request denotes, or None if the request is invalid for the declared names.
@@ -321,6 +326,7 @@ fn execute(plan: &AliasPlan, mode: Mode) -> RunOut {
         let labels = plan.labels.clone();
         let one = vec![vec![0u8]];
         let detach = plan.detach;
+        let detach_clone = plan.detach_clone;
         let res2: Results<ARes> = results.clone();
         spawn_threads(&sim, &one, &res2, move |_ctx, _t, _i, _op: &u8| {
             macro_rules! drive {
@@ -344,11 +350,19 @@ fn execute(plan: &AliasPlan, mode: Mode) -> RunOut {
                         if let Some((_, req)) = reqs.first() {
                             let t = tuple_of(&labels, req).expect("valid request");
                             let vs: Vec<&str> = t.iter().map(|s| s.as_str()).collect();
-                            vec.remove(&Req::Values(t.clone()));
-                            let _ = lv.remove_label_values(&vs);
-                            let l = lv.with_label_values(&vs);
-                            $add(l, 1u64 << 50);
-                            lv.flush();
+                            if detach_clone {
+                                let mut lv2 = lv.clone();
+                                vec.remove(&Req::Values(t.clone()));
+                                let l = lv2.with_label_values(&vs);
+                                $add(l, 1u64 << 50);
+                                lv2.flush();
+                            } else {
+                                vec.remove(&Req::Values(t.clone()));
+                                let _ = lv.remove_label_values(&vs);
+                                let l = lv.with_label_values(&vs);
+                                $add(l, 1u64 << 50);
+                                lv.flush();
+                            }
                         }
                     }
                 }};
@@ -514,7 +528,7 @@ fn execute(plan: &AliasPlan, mode: Mode) -> RunOut {
     }
     // distinct = distinct workload shapes (kind, labels, constants, requests, threads), not seeds
     let mut fp = crate::rng::Fp::default();
-    fp.str(&serde_json::to_string(&(&plan.kind, &plan.labels, &plan.consts, &plan.requests, plan.nthreads, plan.churn, plan.detach)).unwrap());
+    fp.str(&serde_json::to_string(&(&plan.kind, &plan.labels, &plan.consts, &plan.requests, plan.nthreads, plan.churn, plan.detach, plan.detach_clone)).unwrap());
     out.signature = fp.0;
     out.probes.push(("invalid_requests", tuples.iter().filter(|t| t.is_none()).count() as u64));
     out.probes.push(("same_concatenation_pairs", {
